@@ -34,11 +34,13 @@ VARIANTS = {
     # atomic-step variant: ThreadSanitizer *instrumentation* of the atomics only, no ThreadSanitizer runtime - the calls land in
     # hx/tsan_hooks.c, which makes every atomic operation of the core a scheduling point (AddressSanitizer cannot be combined)
     'core_atomics': ([], 'distributed/no_mpi.c', []),
+    'core_mpi_atomics': ([], 'distributed/mpi.c', [os.path.join(VERIF, 'hx', 'fakempi')]),
 }
+ATOMIC_VARIANTS = ('core_atomics', 'core_mpi_atomics')
 TSAN_CF = ['-fsanitize=thread', '-mllvm', '-tsan-instrument-memory-accesses=0', '-mllvm', '-tsan-instrument-func-entry-exit=0',
            '-mllvm', '-tsan-instrument-memintrinsics=0']
-SAN_OF = {'core_atomics': ['-g', '-O1', '-fsanitize=undefined', '-fno-sanitize-recover=undefined', '-fno-omit-frame-pointer']}
-LINK_SAN_OF = {'core_atomics': ['-fsanitize=undefined']}
+SAN_OF = {v: ['-g', '-O1', '-fsanitize=undefined', '-fno-sanitize-recover=undefined', '-fno-omit-frame-pointer'] for v in ATOMIC_VARIANTS}
+LINK_SAN_OF = {v: ['-fsanitize=undefined'] for v in ATOMIC_VARIANTS}
 
 
 def log(*a):
@@ -184,7 +186,7 @@ def build_variant(variant, bdir):
         o = os.path.join(odir, s.replace('/', '_')[:-2] + '.o')
         objs[s] = o
         if not os.path.exists(o):
-            san = SAN_OF.get(variant, SAN) + (TSAN_CF if variant == 'core_atomics' else [])
+            san = SAN_OF.get(variant, SAN) + (TSAN_CF if variant in ATOMIC_VARIANTS else [])
             cmd = ['clang'] + CSTD + san + GUARD + extra + ['-I' + i for i in incs] + ['-I' + os.path.join(REPO, 'src'), '-c',
                                                                                      os.path.join(REPO, 'src', s), '-o', o + '.tmp']
             jobs.append((cmd, o))
@@ -200,7 +202,7 @@ def build_check(spec):
     variant = spec.get('variant', 'core')
     hx_files = spec['hx']
     key = sha_tree([os.path.join(REPO, 'src'), os.path.join(VERIF, 'hx'), os.path.join(VERIF, 'drv')],
-                   extra=json.dumps([SAN_OF.get(variant, SAN), GUARD, VARIANTS[variant][0], variant == 'core_atomics']))
+                   extra=json.dumps([SAN_OF.get(variant, SAN), GUARD, VARIANTS[variant][0], variant in ATOMIC_VARIANTS]))
     os.makedirs(BUILD_ROOT, exist_ok=True)
     bdir = os.path.join(BUILD_ROOT, key)
     os.makedirs(bdir, exist_ok=True)
